@@ -115,4 +115,4 @@ func cmdFunc(mode string, args []string) {
 	}
 }
 
-func cmdCheck(args []string) int { return 2 }
+
